@@ -57,6 +57,9 @@ MUTATIONS = {
     'M24': dict(what="M24: Mermaid: equality instead of identity when skipping the start node's edges", file='nutree/mermaid.py',
         old='        if not add_root and n._parent is node:',
         new='        if not add_root and n._parent == node:'),
+    'M25': dict(what='M25: RDF: a node_mapper answering False also suppresses the has_child triple of that node', file='nutree/rdf.py',
+        old='    if parent_graph_node is not None:\n        graph.add((parent_graph_node, NUTREE_NS.has_child, graph_node))\n\n    if res is False:\n        # node_mapper wants to prevent adding standard attributes?\n        return graph_node\n',
+        new='    if res is False:\n        # node_mapper wants to prevent adding standard attributes?\n        return graph_node\n\n    if parent_graph_node is not None:\n        graph.add((parent_graph_node, NUTREE_NS.has_child, graph_node))\n'),
 }
 
 if __name__ == "__main__":
